@@ -497,7 +497,7 @@ def assigns_grouping(run, twin=None):
 
             class Self(S.SourceScope):
                 pass
-            s = Self.__new__(Self)
+            s = loader.bare_instance(Self)
             s._attr_assigns = AttrAssigns(('scope', attr, node.value))
             # the displays hook turns BOTH `{}` into proxies; the inner per-object dict must be a real dict
             made = []
@@ -537,14 +537,14 @@ def method_self(run):
 
             def resolve(self, ctx):
                 return ClsObj()
-        fs = S.FuncScope.__new__(S.FuncScope)
+        fs = loader.bare_instance(S.FuncScope)
         fs.parent = CS()
         a0 = Nm.ArgumentName([0], 'self', (1, 0), (1, 0), fs)
         a1 = Nm.ArgumentName([1], 'x', (1, 0), (1, 0), fs)
         prove('first-parameter-of-a-method-is-an-instance', fs.get_argument(None, a0) is inst, path=path)
         prove('other-parameters-unknown', fs.get_argument(None, a1) is None, path=path)
-        fs2 = S.FuncScope.__new__(S.FuncScope)
-        fs2.parent = S.SourceScope.__new__(S.SourceScope)
+        fs2 = loader.bare_instance(S.FuncScope)
+        fs2.parent = loader.bare_instance(S.SourceScope)
         try:
             r = fs2.get_argument(None, a0)
         except Exception as e:
